@@ -47,7 +47,7 @@ prop("C06", M(["At", "Slice", "Patch", "Reshape", "Flatten", "Squeeze", "UnSquee
      "validator.ValidateAtIndexAgainstDims", "validator.ValidateSliceIndexAgainstDims", "validator.ValidatePatchIndexAgainstDims", "validator.ValidateConcatTensorsDimsAlongDim", "validator.ValidateReshapeSourceDimsAgainstTargetDims",
      "validator.ValidateUnSqueezeDimAgainstDims", "validator.ValidateSqueezeDimAgainstDims", "validator.ValidateFlattenDimAgainstDims", "cputensor.unsqueezeDims", "cputensor.squeezeDims", "cputensor.flattenDims"],
      bounded=[("TestSlicePatch", "L2 leaf contracts copiedSliceOf / copiedWithPatchOf / dataAt", "all shapes of rank <= 3 with sizes <= 3, every combination of explicit / omitted / {0,0} ranges, every source block size and position"),
-              ("TestShapeOps", "L2 leaf contracts reshape / transpose / broadcast element generators (row-major sequence preserved)", "all shapes of rank <= 4 with sizes <= 3 and every element-count-preserving target of rank <= 3"),
+              ("TestShapeOps", "L2 leaf contracts reshape / transpose / broadcast element generators (row-major sequence preserved)", "all shapes of rank <= 3 (thorough: 4) with sizes <= 3, every element-count-preserving target, and every Broadcast target of rank <= 3 with sizes <= 3 plus all rank-4 targets with sizes <= 2"),
               ("TestConstructors", "constTensor, eyeMatrix, initTensorFromData (TensorOf), initConcatResultTensor", "ranks <= 4, sizes <= 3; Concat of 2..3 operands along every dim")],
      paper=["LEX: the odometer successor increments the row-major rank (Reshape family)", "PROD: element count of unsqueezed / squeezed / flattened shapes"],
      expl="Validators are characterised exactly; Slice / Patch / At / Concat / Reshape family / Broadcast / constructors are proved against the contracts of the L2 leaf functions (index arithmetic: completeIndex, rfrom/rwidth, catoff); the leaf functions (tree recursions, element generators) are assumed with bounded stand-ins.")
